@@ -34,7 +34,7 @@ func implRandFe[FP fieldsImpl.FiniteFieldElementPtr[FP, F], F any](r *Rng, x *F)
 
 type wPoint[FP fieldsImpl.FiniteFieldElementPtr[FP, F], C pointsImpl.ShortWeierstrassCurveParams[FP], H h2c.HasherParams, M h2c.PointMapper[FP], F any] = pointsImpl.ShortWeierstrassPointImpl[FP, C, H, M, F]
 
-func wStr[FP fieldsImpl.FiniteFieldElementPtr[FP, F], C pointsImpl.ShortWeierstrassCurveParams[FP], H h2c.HasherParams, M h2c.PointMapper[FP], F any](p *pointsImpl.ShortWeierstrassPointImpl[FP, C, H, M, F]) string {
+func c14wStr[FP fieldsImpl.FiniteFieldElementPtr[FP, F], C pointsImpl.ShortWeierstrassCurveParams[FP], H h2c.HasherParams, M h2c.PointMapper[FP], F any](p *pointsImpl.ShortWeierstrassPointImpl[FP, C, H, M, F]) string {
 	return implFeStr[FP](&p.X) + "," + implFeStr[FP](&p.Y) + "," + implFeStr[FP](&p.Z)
 }
 
@@ -89,13 +89,13 @@ func c14WProj[FP fieldsImpl.FiniteFieldElementPtr[FP, F], C pointsImpl.ShortWeie
 		}
 		c.Count(cn + ".padd." + k1 + "/" + k2)
 		var out PT
-		c.Emit(fmt.Sprintf("padd %s %s %s", cn, wStr(p1), wStr(p2)), safely(func() string { out.Add(p1, p2); return wStr(&out) }))
-		c.Emit(fmt.Sprintf("peq %s %s %s", cn, wStr(p1), wStr(p2)), safely(func() string { return boolStr(p1.Equal(p2) == 1) }))
+		c.Emit(fmt.Sprintf("padd %s %s %s", cn, c14wStr(p1), c14wStr(p2)), safely(func() string { out.Add(p1, p2); return c14wStr(&out) }))
+		c.Emit(fmt.Sprintf("peq %s %s %s", cn, c14wStr(p1), c14wStr(p2)), safely(func() string { return boolStr(p1.Equal(p2) == 1) }))
 		if i%2 == 0 {
 			var d, n PT
-			c.Emit(fmt.Sprintf("pdbl %s %s", cn, wStr(p1)), safely(func() string { d.Double(p1); return wStr(&d) }))
-			c.Emit(fmt.Sprintf("pneg %s %s", cn, wStr(p1)), safely(func() string { n.Neg(p1); return wStr(&n) }))
-			c.Emit(fmt.Sprintf("piszero %s %s", cn, wStr(p1)), safely(func() string { return boolStr(p1.IsZero() == 1) }))
+			c.Emit(fmt.Sprintf("pdbl %s %s", cn, c14wStr(p1)), safely(func() string { d.Double(p1); return c14wStr(&d) }))
+			c.Emit(fmt.Sprintf("pneg %s %s", cn, c14wStr(p1)), safely(func() string { n.Neg(p1); return c14wStr(&n) }))
+			c.Emit(fmt.Sprintf("piszero %s %s", cn, c14wStr(p1)), safely(func() string { return boolStr(p1.IsZero() == 1) }))
 		}
 		if i%4 == 0 {
 			// SetAffine: curve-equation check on (x, y): on-curve pairs from seeds and arbitrary pairs
@@ -114,7 +114,7 @@ func c14WProj[FP fieldsImpl.FiniteFieldElementPtr[FP, F], C pointsImpl.ShortWeie
 			c.Emit(fmt.Sprintf("psetaffine %s %s %s", cn, implFeStr[FP](&x), implFeStr[FP](&y)), safely(func() string {
 				s.SetZero()
 				ok := s.SetAffine(&x, &y)
-				return boolStr(ok == 1) + "," + wStr(&s)
+				return boolStr(ok == 1) + "," + c14wStr(&s)
 			}))
 		}
 	}
